@@ -9,7 +9,7 @@ PLAN = os.path.join(ROOT, "plan.json")
 KNOWN = os.path.join(ROOT, "known_findings.json")
 # runs against a scratch copy of the repository (VERIF_REPO set: seeded changes, refactoring experiments) must not
 # overwrite the evidence of /repo itself
-EVID = os.path.join(ROOT, "evidence") if not os.environ.get("VERIF_REPO") else os.path.join(ROOT, ".work", "evidence_scratch")
+EVID = os.path.join(ROOT, "evidence") if not os.environ.get("VERIF_REPO") else os.path.join(os.environ.get("VERIF_WORK") or os.path.join(ROOT, ".work"), "evidence_scratch")
 REPLAYS = os.path.join(ROOT, "replays")
 
 
